@@ -19,4 +19,15 @@ for pkg, kw in manifest.HARNESS_PACKAGES:
     if not okb:
         print(out[-3000:])
         rc = 1
+import domgen
+try:
+    domgen.write()
+    okb, out, _ = vlib.cargo_build("dom-driver", workspace=os.path.join(vlib.HARNESS, "dom"))
+    print("cargo build dom-driver: %s" % ("ok" if okb else "FAILED"))
+    if not okb:
+        print(out[-3000:])
+        rc = 1
+except domgen.GenError as e:
+    print("domgen failed:", e)
+    rc = 1
 sys.exit(rc)
